@@ -26,24 +26,30 @@ import (
 )
 
 type protoRun struct {
-	Proto     string // ecdsa-keygen | ecdsa-signing | ecdsa-resharing | eddsa-keygen | eddsa-signing | eddsa-resharing
-	Key       keyChoice
-	Keys      []H   `json:",omitempty"` // keygen: party keys (drawn order)
-	Members   []int `json:",omitempty"` // signing: signers; resharing: participating old members (party indices, drawn order)
-	Msg       H     `json:",omitempty"`
-	NewKeys   []H   `json:",omitempty"` // resharing: new committee party keys
-	NewT      int   `json:",omitempty"`
-	Proofs    bool  `json:",omitempty"` // ECDSA resharing: mod/fac proofs on (production path)
-	BadXi     []int `json:",omitempty"` // positions in Members whose party runs with a wrong secret share (Xi+1)
-	WeakPre   []int `json:",omitempty"` // ECDSA keygen / resharing: sorted party indices (new-committee indices) that bring under-sized parameters
-	WeakBits  int   `json:",omitempty"`
-	ShortSSID bool  `json:",omitempty"` // dealer keys, signing / resharing: search the dealer seed for a session id with a leading zero byte
-	GenPre    []int `json:",omitempty"` // ECDSA keygen / resharing: sorted (new-committee) indices whose party gets no pre-parameters: the library generates them
+	Proto            string // ecdsa-keygen | ecdsa-signing | ecdsa-resharing | eddsa-keygen | eddsa-signing | eddsa-resharing
+	Key              keyChoice
+	Keys             []H   `json:",omitempty"` // keygen: party keys (drawn order)
+	Members          []int `json:",omitempty"` // signing: signers; resharing: participating old members (party indices, drawn order)
+	Msg              H     `json:",omitempty"`
+	NewKeys          []H   `json:",omitempty"` // resharing: new committee party keys
+	NewT             int   `json:",omitempty"`
+	Proofs           bool  `json:",omitempty"` // ECDSA resharing: mod/fac proofs on (production path)
+	BadXi            []int `json:",omitempty"` // positions in Members whose party runs with a wrong secret share (Xi+1)
+	WeakPre          []int `json:",omitempty"` // ECDSA keygen / resharing: sorted party indices (new-committee indices) that bring under-sized parameters
+	WeakBits         int   `json:",omitempty"`
+	OtherGlobalCurve bool  `json:",omitempty"` // the deprecated process-global curve (tss.SetCurve) is set to the curve this protocol does NOT use
+	ShortSSID        bool  `json:",omitempty"` // dealer keys, signing / resharing: search the dealer seed for a session id with a leading zero byte
+	GenPre           []int `json:",omitempty"` // ECDSA keygen / resharing: sorted (new-committee) indices whose party gets no pre-parameters: the library generates them
 }
 
 func (p protoRun) edd() bool { return p.Proto[:5] == "eddsa" }
 
 func (p protoRun) String() string {
+	if p.OtherGlobalCurve {
+		q := p
+		q.OtherGlobalCurve = false
+		return q.String() + " global-curve=other"
+	}
 	if p.ShortSSID {
 		q := p
 		q.ShortSSID = false
@@ -198,6 +204,12 @@ func (p protoRun) withShortSSID() protoRun {
 }
 
 func (p protoRun) build() *runCtx {
+	// protocols take their curve from the parameters; the process-global default must not matter
+	if p.edd() != p.OtherGlobalCurve {
+		tss.SetCurve(tss.Edwards())
+	} else {
+		tss.SetCurve(tss.S256())
+	}
 	if p.ShortSSID {
 		p = p.withShortSSID()
 	}
@@ -535,6 +547,7 @@ func genProtoRun(t *rapid.T, protos []string) protoRun {
 		p.NewKeys, p.NewT = genNewCommittee(t, edd, old, maxN)
 		p.Proofs = !edd && rapid.Bool().Draw(t, "proofs")
 	}
+	p.OtherGlobalCurve = rapid.IntRange(0, 2).Draw(t, "otherGlobalCurve") == 0
 	if p.Key.Src == "dealer" && p.Proto != "ecdsa-keygen" && p.Proto != "eddsa-keygen" && p.Proto != "eddsa-resharing" {
 		p.ShortSSID = rapid.IntRange(0, 3).Draw(t, "shortssid") == 0
 	}
